@@ -53,7 +53,8 @@ OUTSIDE = ["macro expansion, stringification (#), token pasting (##), nested/rec
            "`defined`, identifiers and character constants inside #if expressions, #ifdef/#ifndef",
            "literal spelling (hex/octal, l/ll suffixes: all signed types are intmax_t in #if anyway); unsuffixed literals above INTMAX_MAX",
            f"shift counts built from literals larger than {SHIFT_COUNT_MAX} (undefined for 64-bit operands)",
-           "expression trees deeper than 3 operators"]
+           "expression trees deeper than 3 operators; in the sampled trees * / % only over leaf operands, at most one of them "
+           "per tree, no << next to them (64-bit symbolic products/quotients of sub-expressions are out of the solvers' reach)"]
 ASSUMPTIONS = ["#if arithmetic as written in /verif/ref/csem.py (C11 6.10.1p4 + 6.5), cross-checked against gcc -E on concrete points "
                "(tools/csem_selftest.py)",
                "undefined behaviour in an evaluated operand of the controlling expression is a premise",
@@ -255,11 +256,21 @@ def _rand_tree(rnd, depth, base):
     return ["cond", c, a, b], n
 
 
+def heavy_on_leaves(e):
+    """in the sampled trees the operands of * / % are leaves (64-bit products and quotients of sub-expressions are
+    out of the solvers' reach; all leaf combinations are in the exhaustive depth-1 family)"""
+    if e[0] == "lit":
+        return True
+    if e[0] in ("mul", "div", "mod") and not all(x[0] == "lit" or (x[0] == "neg" and x[1][0] == "lit") for x in e[1:]):
+        return False
+    return all(heavy_on_leaves(x) for x in e[1:] if isinstance(x, list))
+
+
 def sampled_templates(rnd, n):
     T = []
     while len(T) < n:
         e, k = _rand_tree(rnd, 2, 0)
-        if e[0] in ("lit", "neg") or not tractable(e):
+        if e[0] in ("lit", "neg") or not tractable(e) or not heavy_on_leaves(e):
             continue
         o = csem.renumber(rnd.choice(observers(e, k, True)))
         spec = (rnd.choice(["if", "if", "elif"]), o)
